@@ -24,11 +24,11 @@ func extractionWindows(tier string) []Win {
 	}
 	if tier == "thorough" {
 		ws = append(ws,
-			Win{at(0, 23, 50, 1, 1), at(1, 20, 10, 59, 999999999)},         // crosses midnight from the last minutes of a day
-			Win{at(1, 23, 59, 59, 999999000), at(2, 0, 0, 0, 1000)},        // 2 microseconds around the month boundary
-			Win{at(2, 0, 0, 0, 0), at(2, 0, 29, 59, 0)},                    // starts exactly at midnight, shorter than the 30 min margin
-			Win{at(1, 12, 0, 0, 250000000), at(1, 12, 0, 0, 750000000)},    // sub-second
-			Win{at(0, 5, 0, 0, 0), at(0, 19, 0, 0, 0)},                     // aligned to everything
+			Win{at(0, 23, 50, 1, 1), at(1, 20, 10, 59, 999999999)},      // crosses midnight from the last minutes of a day
+			Win{at(1, 23, 59, 59, 999999000), at(2, 0, 0, 0, 1000)},     // 2 microseconds around the month boundary
+			Win{at(2, 0, 0, 0, 0), at(2, 0, 29, 59, 0)},                 // starts exactly at midnight, shorter than the 30 min margin
+			Win{at(1, 12, 0, 0, 250000000), at(1, 12, 0, 0, 750000000)}, // sub-second
+			Win{at(0, 5, 0, 0, 0), at(0, 19, 0, 0, 0)},                  // aligned to everything
 		)
 	}
 	return ws
@@ -74,19 +74,19 @@ type ScanOut struct {
 }
 
 type ExtractOut struct {
-	TZ         string      `json:"tz"`
-	Tier       string      `json:"tier"`
-	WriterObs  []WriterObs `json:"writer_obs"`
-	Endpoints  []string    `json:"endpoints"`
-	Scans      []ScanOut   `json:"scans"`
-	Findings   []Finding   `json:"findings"`
-	Probes     int         `json:"probes"`
-	Statements int         `json:"statements"`
-	Errors     []string    `json:"errors"`    // infrastructure problems
-	Non2xx     []string    `json:"non2xx"`
-	StmtErrors []string    `json:"stmt_errors"` // statements rejected with an error ClickHouse would raise too (another property's business)    // requests that ran their statements and then failed
-	Status     map[string]int `json:"status"` // endpoint -> last HTTP status
-	Samples    []any       `json:"samples"`
+	TZ         string         `json:"tz"`
+	Tier       string         `json:"tier"`
+	WriterObs  []WriterObs    `json:"writer_obs"`
+	Endpoints  []string       `json:"endpoints"`
+	Scans      []ScanOut      `json:"scans"`
+	Findings   []Finding      `json:"findings"`
+	Probes     int            `json:"probes"`
+	Statements int            `json:"statements"`
+	Errors     []string       `json:"errors"` // infrastructure problems
+	Non2xx     []string       `json:"non2xx"`
+	StmtErrors []string       `json:"stmt_errors"` // statements rejected with an error ClickHouse would raise too (another property's business)    // requests that ran their statements and then failed
+	Status     map[string]int `json:"status"`      // endpoint -> last HTTP status
+	Samples    []any          `json:"samples"`
 }
 
 func intersect(a, b []string) []string {
@@ -252,16 +252,16 @@ type ProbeJob struct {
 }
 
 type ProbeRes struct {
-	Job       ProbeJob  `json:"job"`
-	Win       Win       `json:"win"`
-	Skipped   string    `json:"skipped,omitempty"`
-	Status    int       `json:"status"`
-	Findings  []Finding `json:"findings"`
-	Visible   []string  `json:"visible"`
-	Entities  int       `json:"entities"`
-	Stmts     int       `json:"stmts"`
-	Admitted  int       `json:"admitted"` // planted entities admitted by some scan
-	Classes   []string  `json:"classes"`
+	Job      ProbeJob  `json:"job"`
+	Win      Win       `json:"win"`
+	Skipped  string    `json:"skipped,omitempty"`
+	Status   int       `json:"status"`
+	Findings []Finding `json:"findings"`
+	Visible  []string  `json:"visible"`
+	Entities int       `json:"entities"`
+	Stmts    int       `json:"stmts"`
+	Admitted int       `json:"admitted"` // planted entities admitted by some scan
+	Classes  []string  `json:"classes"`
 }
 
 type ProbeOut struct {
